@@ -291,7 +291,12 @@ pub fn run(ctx: &Ctx, st: &mut Stats) {
     let n = ctx.tier.pick(2_000, 3_000_000, ctx.big(60_000_000, 400_000_000));
     ctx.par(st, "random: base x day-offset clustered at k s + 0.5 s +- 20 us", false, 0, n, |st, _, rng| {
         let base_s = rng.range_i64(TS_MIN / SEC, ORA_MAX / SEC);
-        let off_us = match rng.below(5) {
+        let off_us = match rng.below(7) {
+            // half-second neighbourhoods at every magnitude (hours .. the whole range)
+            5 | 6 => {
+                let (e1, e2) = (12 + rng.below(27), 12 + rng.below(27));
+                rng.range_i64(-(1i64 << e1), 1i64 << e2) * SEC + 500_000 + rng.range_i64(-20, 20)
+            }
             0 => rng.range_i64(-3, 3) * SEC + 500_000 + rng.range_i64(-20, 20),
             1 => rng.range_i64(-100_000, 100_000) * SEC + 500_000 + rng.range_i64(-20, 20),
             2 => rng.range_i64(-5 * DAY_US, 5 * DAY_US),
